@@ -597,6 +597,7 @@ def run(ctx):
         "int(-2^63 as double), non-finite round trips, instants outside 0001..9999, spaces/underscores/non-ASCII digits/'+'/leading zeros/hex/nan/inf spellings "
         "are counted but not compared); cases are distinct by construction")
     ctx.assumptions = [
+        "timestamps are built by the library's own constructors from RFC 3339 text or integer fields and carry UTC or a fixed whole-minute offset; host-supplied datetimes carrying other tzinfo objects (ZoneInfo zones at DST folds, offsets with seconds) are not explored",
         "values outside the alphabets are not explored; timestamps and durations are whole seconds",
         "string(x) is judged only through the round trip; for direct texts only value-vs-error (and the result type) is judged, the value is merely "
         "counted in direct_text_value_differs_from_usual_reading",
